@@ -61,6 +61,13 @@ def replay(cases):
         if not ok:
             viol.append(("readUnixTime", "readUnixTime(%r) = %s, specification state %s"
                          % (exp, got, [y, m, d, h, mi, s, ms]), c["day"]))
+        # ---- day of the week (growth of the clock model)
+        try:
+            dow = t.getDayOfWeek()
+        except Exception as e:  # pragma: no cover
+            dow = repr(e)
+        if dow != c["dow"]:
+            viol.append(("getDayOfWeek", "getDayOfWeek(%s) = %r, specification %r" % (_fields(t), dow, c["dow"]), c["day"]))
         # ---- offsets and order
         for k, sc in c["succ"].items():
             if sc["day"] < 0:
